@@ -242,6 +242,9 @@ def check_get_extrema(ctx, db):
     ctx.check(rs.count('min') == rs.count('max') and rs.count('min') >= 4, 'R-MINMAX', 'Repetition::get_extrema/min-max-balance', f.loc(), 'explicit kinds keep one running min and one running max per axis (%d + %d)' % (rs.count('min'), rs.count('max')))
 
 
+from .. import flow as flow_mod
+
+
 def check_apply_repetition(ctx, db):
     """apply_repetition (five element kinds), decided from the CFG and the affine loop summary - no sibling text is compared:
       none-returns      the only early exit before the offsets are taken is guarded by `repetition.type == None`;
@@ -341,6 +344,7 @@ def check_apply_repetition(ctx, db):
             comps.add(c0 % unit if unit == 2 else 'v')
         if not problems and comps not in ({'v'}, {0, 1}):
             problems.append('only component(s) %s of the offset are used' % sorted(comps))
+        flow_mod.check_count_underflow(ctx, f, key)
         ctx.check(not problems, 'R-SHAPE', key + '/count-1-copies', f.loc(), 'count - 1 copies of *this are made, copy k moved by offset k + 1 and appended once', '; '.join(problems))
 
 
